@@ -196,7 +196,7 @@ class Exporter:
             if np.dtype(e.array.dtype).kind not in "iu":
                 raise Inexpressible("dtype")
             k = self._node(e.array)
-            axes = [int(a) for a in e.axis]
+            axes = sorted(int(a) for a in e.axis)
             if not axes:
                 raise Inexpressible("no axis")
             return self._emit(f"reduce~{cls.lower()}~{k}~{_fl(axes)}~{1 if e.keepdims else 0}~N")
